@@ -24,6 +24,7 @@ import (
 	"os/exec"
 	"path/filepath"
 	r "reflect"
+	"regexp"
 	"sort"
 	"strconv"
 	"strings"
@@ -42,6 +43,7 @@ type unit struct {
 	Entry   string   `json:"entry"` // name of the entry function (no arguments, no results)
 	Class   []string `json:"class,omitempty"`
 	mini    *program
+	isolated string // corpus file to evaluate in a child process (may hang)
 	corpus  string // key of the finding this exact input belongs to
 	what    string
 }
@@ -240,6 +242,8 @@ type corpusEntry struct {
 	Decls []string `json:"decls"`
 	Entry string   `json:"entry"`
 	Avoid string   `json:"avoid"` // generator class switched off while this input fails
+	Hang  bool     `json:"hang_risk"`
+	path  string
 }
 
 func loadCorpus() []corpusEntry {
@@ -250,6 +254,7 @@ func loadCorpus() []corpusEntry {
 		for _, f := range files {
 			var e corpusEntry
 			if b, err := os.ReadFile(f); err == nil && json.Unmarshal(b, &e) == nil && e.Entry != "" {
+				e.path = f
 				out = append(out, e)
 			}
 		}
@@ -257,10 +262,57 @@ func loadCorpus() []corpusEntry {
 	return out
 }
 
+var bareReturn = regexp.MustCompile(`(?m)\breturn$`)
+
+// replayOne: `c38 -replay corpus.json` evaluates one corpus entry with the classic interpreter and prints the observation
+// (used for inputs that may hang: the parent kills the process)
+func replayOne(path string) {
+	var e corpusEntry
+	b, err := os.ReadFile(path)
+	if err != nil || json.Unmarshal(b, &e) != nil || e.Entry == "" {
+		fmt.Println(`{"trace":[],"err":"bad replay file"}`)
+		return
+	}
+	it := newInterp()
+	o := it.runClassic(&unit{Decls: e.Decls, Entry: e.Entry})
+	out, _ := json.Marshal(o)
+	fmt.Println(string(out))
+}
+
+func runIsolated(path string, limit time.Duration) obs {
+	c := exec.Command(os.Args[0], "-replay", path)
+	var out bytes.Buffer
+	c.Stdout = &out
+	if err := c.Start(); err != nil {
+		return obs{Trace: []string{}, Err: "cannot start"}
+	}
+	done := make(chan error, 1)
+	go func() { done <- c.Wait() }()
+	select {
+	case <-done:
+	case <-time.After(limit):
+		c.Process.Kill()
+		return obs{Trace: []string{}, Err: "hang"}
+	}
+	var o obs
+	lines := strings.Split(strings.TrimSpace(out.String()), "\n")
+	if json.Unmarshal([]byte(lines[len(lines)-1]), &o) != nil {
+		return obs{Trace: []string{}, Err: "no output"}
+	}
+	if o.Trace == nil {
+		o.Trace = []string{}
+	}
+	return o
+}
+
 // ---------------------------------------------------------------- main
 
 func main() {
 	a := vh.ParseArgs()
+	if a.Replay != "" {
+		replayOne(a.Replay)
+		return
+	}
 	rng := vh.NewRng(a.Seed)
 	rep := vh.NewReport(a, "family minigo (45%): random structured programs func p() (v0..v3 int) from the C05 generator restricted to the classic interpreter's documented subset "+
 		"(emit/assign/if-else(-if)/for (3-clause with := header variable, cond-only, infinite)/unlabelled break,continue/switch (tagged with constant and expression cases, tagless, default anywhere, fallthrough)/blocks with locals/return; "+
@@ -287,7 +339,11 @@ func main() {
 	// ---- corpus first
 	corpus := loadCorpus()
 	for _, e := range corpus {
-		units = append(units, &unit{Idx: idx, Family: "corpus", Decls: e.Decls, Entry: e.Entry, corpus: e.Key, what: e.What, Class: []string{e.Avoid}})
+		u := &unit{Idx: idx, Family: "corpus", Decls: e.Decls, Entry: e.Entry, corpus: e.Key, what: e.What, Class: []string{e.Avoid}}
+		if e.Hang {
+			u.isolated = e.path
+		}
+		units = append(units, u)
 		idx++
 	}
 	ncorpus := len(units)
@@ -302,9 +358,13 @@ func main() {
 			os.Exit(2)
 		}
 		for _, u := range units {
-			it := newInterp()
 			wd.Beat(u)
-			got := it.runClassic(u)
+			var got obs
+			if u.isolated != "" {
+				got = runIsolated(u.isolated, 15*time.Second)
+			} else {
+				got = newInterp().runClassic(u)
+			}
 			w := want[u.Idx]
 			if got.String() != w.String() {
 				rep.Fail(vh.Failure{Key: u.corpus, What: u.what, Input: u.source() + "\n" + u.Entry + "()", Got: got, Want: w})
@@ -338,7 +398,7 @@ func main() {
 			fsrc := fmt.Sprintf("func %s() (v0, v1, v2, v3 int) {\n%s\n}", name, p.Src)
 			if skip["named-results"] {
 				// finding open: results are declared as locals and every return names them
-				body := strings.ReplaceAll(p.Src, "return", "return v0, v1, v2, v3")
+				body := bareReturn.ReplaceAllString(p.Src, "return v0, v1, v2, v3")
 				fsrc = fmt.Sprintf("func %s() (int, int, int, int) {\n\tvar v0, v1, v2, v3 int\n%s\n}", name, body)
 			}
 			u.Decls = []string{
